@@ -414,6 +414,57 @@ pub fn check(sc: &Scenario, ex: &mut Exec) -> (Verdict, Option<String>) {
                 } else if a.arg.contains(" / 2.0") && !a.arg.contains("cast(") {
                     // known finding: the float literal 2.0 is rendered `2`, integer / 2 divides integers
                     class = "integer_valued_float_literal".into();
+                } else if (a.arg.starts_with("log2(") || a.arg.starts_with("log10(")) && a.arg.ends_with(')') {
+                    // known finding: the parser reads log2(x) / log10(x) as log(2) / log(x) and
+                    // log(10) / log(x). Excused only if the DP value is what the original query
+                    // gives with exactly that reading of this one argument
+                    let (base, inner) = if let Some(r) = a.arg.strip_prefix("log2(") { ("2.0", r) } else { ("10.0", a.arg.strip_prefix("log10(").unwrap()) };
+                    let inner = &inner[..inner.len() - 1];
+                    let mut q2 = q.clone();
+                    for a2 in q2.aggs.iter_mut() {
+                        if a2.alias == a.alias {
+                            // the guarded division of the compiler reads 0 where the denominator is NULL
+                            a2.arg = format!("CASE WHEN log({i}) IS NULL THEN 0.0 ELSE log({b}) / log({i}) END", b = base, i = inner);
+                        }
+                    }
+                    if let Ok((rs, _)) = ex.query(&mut eng, "log_swap_probe", &q2.sql_variant(false), &plan) {
+                        let kidx: Vec<usize> = q.keys.iter().filter_map(|kk| rs.col(&kk.alias)).collect();
+                        if let (Some(ci), Some(d)) = (rs.col(&a.alias), d) {
+                            let prefix = &k[..q.keys.len().min(k.len())];
+                            if rs.rows.iter().any(|r| {
+                                let rk: Vec<String> = kidx.iter().map(|&i| r[i].key()).collect();
+                                rk.as_slice() == prefix && num(&r[ci]).map_or(false, |v| close(v, d, 1e-9, 1e-9))
+                            }) {
+                                class = "log_base_swapped".into();
+                            }
+                        }
+                    }
+                } else if (a.arg.starts_with("power(") || a.arg.starts_with("pow(")) && o.map_or(false, |o| o < 0.0) && d.map_or(false, |d| d == 0.0) {
+                    // known finding: pow is typed on non-negative bases only; a negative base falls
+                    // back to the co-domain [0, max] and the final clamp cuts a negative sum to 0
+                    class = "pow_negative_base".into();
+                } else if a.f == AggFn::Avg && !a.distinct && a.arg.contains(" / ") && !a.arg.contains('(') {
+                    // known finding: the guarded division reads 0 (not NULL) where the denominator
+                    // is NULL. Excused only if the DP value is the original query with that reading
+                    let den = a.arg.split(" / ").nth(1).unwrap_or("").to_string();
+                    let mut q2 = q.clone();
+                    for a2 in q2.aggs.iter_mut() {
+                        if a2.alias == a.alias {
+                            a2.arg = format!("CASE WHEN {} IS NULL THEN 0.0 ELSE {} END", den, a.arg);
+                        }
+                    }
+                    if let Ok((rs, _)) = ex.query(&mut eng, "null_denominator_probe", &q2.sql_variant(false), &plan) {
+                        let kidx: Vec<usize> = q.keys.iter().filter_map(|kk| rs.col(&kk.alias)).collect();
+                        if let (Some(ci), Some(d)) = (rs.col(&a.alias), d) {
+                            let prefix = &k[..q.keys.len().min(k.len())];
+                            if rs.rows.iter().any(|r| {
+                                let rk: Vec<String> = kidx.iter().map(|&i| r[i].key()).collect();
+                                rk.as_slice() == prefix && num(&r[ci]).map_or(false, |v| close(v, d, 1e-9, 1e-9))
+                            }) {
+                                class = "division_null_denominator".into();
+                            }
+                        }
+                    }
                 } else if a.distinct {
                     // excused only if the group really holds duplicate values of the argument
                     let dup_sql = format!(
